@@ -221,6 +221,19 @@ fn templates() -> Vec<(&'static str, Vec<Vec<Vec<S>>>, usize)> {
             4,
         ),
         (
+            // a nonterminal with an empty alternative used in two contexts, one followed by EOF:
+            // merged lookaheads make the parser reduce before it detects an error
+            // S = c X e | d X ; X = a 0 | a B | a Opt ; B = 0 1 ; Opt = ε | q
+            "merged-eps-context",
+            vec![
+                vec![vec![t(0), n(1), t(1)], vec![t(2), n(1)]],
+                vec![vec![t(3), t(4)], vec![t(3), n(2)], vec![t(3), n(3)]],
+                vec![vec![t(4), t(5)]],
+                vec![vec![], vec![t(6)]],
+            ],
+            7,
+        ),
+        (
             "two-eps",
             vec![
                 vec![vec![n(1), n(2), t(0)]],
